@@ -9,6 +9,8 @@ from __future__ import unicode_literals
 from ural.patterns import (
     URL_IN_HTML_RE,
     URL_IN_HTML_BINARY_RE,
+    BALANCED_A_TAG_RE,
+    BALANCED_A_TAG_BINARY_RE,
     SCRIPT_TAG_RE,
     SCRIPT_TAG_BINARY_RE,
 )
@@ -28,17 +30,24 @@ def __urls_finditer(string):
     string = SCRIPT_TAG_RE.sub("", string)
 
     for match in URL_IN_HTML_RE.finditer(string):
-        url = match.group(1)
+        # NOTE: when the loose reading was needed for a tag whose quotes are
+        # balanced, the " href=" it found sits inside a quoted value
+        if match.group(1) is not None and BALANCED_A_TAG_RE.match(
+            string, match.start()
+        ):
+            continue
+
+        url = match.group(2)
 
         if url is not None:
             url = url.strip('"')
         else:
-            url = match.group(2)
+            url = match.group(3)
 
             if url is not None:
                 url = url.strip("'")
             else:
-                url = match.group(3)
+                url = match.group(4)
 
         assert url is not None
 
@@ -49,17 +58,22 @@ def __urls_finditer_binary(string, encoding="utf-8", errors="strict"):
     string = SCRIPT_TAG_BINARY_RE.sub(b"", string)
 
     for match in URL_IN_HTML_BINARY_RE.finditer(string):
-        url = match.group(1)
+        if match.group(1) is not None and BALANCED_A_TAG_BINARY_RE.match(
+            string, match.start()
+        ):
+            continue
+
+        url = match.group(2)
 
         if url is not None:
             url = url.strip(b'"')
         else:
-            url = match.group(2)
+            url = match.group(3)
 
             if url is not None:
                 url = url.strip(b"'")
             else:
-                url = match.group(3)
+                url = match.group(4)
 
         assert url is not None
 
